@@ -96,6 +96,13 @@ checks.update({
    note="Session alg header is set to the key's algorithm (integrator duty); refreshed ID tokens may omit the nonce (OIDC Core 12.2) but must not change it."),
 })
 
+checks.update({
+ "C15": dict(level="model_checking", engine="SCHED+ENUM", ref="DESIGN.md §5 C15",
+   technique="stateless depth-first schedule exploration of the real token endpoint under a cooperative scheduler (all interleavings of the storage steps of 2 simultaneous presentations, preemption-bounded for 3), plus exhaustive enumeration of header x key x claim-deviation grids",
+   text="Schedules: 2 and 3 simultaneous presentations of one client assertion / one JWT-bearer assertion; every interleaving at storage-call granularity for 2 threads (unbounded), preemption bound 2 (4 thorough) for 3 threads, and lock granularity with bound 2; on every complete execution at most one presentation of a jti succeeds. Grid: 6 header algorithms x 3 kid x 3 signing keys x 28 single-claim deviations (absent / wrong type / wrong value / boundary times incl. fractional exp) x scope-vs-key-scope x optional-claim configs x 3 replay positions, one-sided against the statement.",
+   note="Scheduling points: storage calls, random reads, lock acquisitions (vsync shim); unknown kid and future iat are don't-care."),
+})
+
 # properties not (yet) claimed: reason
 not_applicable = {
 }
@@ -115,6 +122,7 @@ man = {
  },
  "engines": [
   {"name": "HIST", "path": "h/fam.go", "serves_properties": ["C01", "C04", "C08", "C09"], "kind_free_text": "explicit-state breadth-first search over API histories of the real provider, lock-step reference model, worker subprocesses, global dedup on canonical store dump"},
+  {"name": "SCHED", "path": "h/sched.go h/schedscen.go", "serves_properties": ["C15", "C19"], "kind_free_text": "controlled cooperative scheduler over the real code (scheduling points at storage calls, random reads and shim lock acquisitions), stateless DFS with iterative preemption bounding, vector-clock happens-before race detector fed by overlay access hooks, deadlock detection"},
   {"name": "SEQ", "path": "h/c03.go", "serves_properties": ["C03", "C16", "C17"], "kind_free_text": "exhaustive bounded enumeration of operation sequences on the real provider"},
   {"name": "ENUM", "path": "h/c02.go h/c05.go h/c06.go h/c07.go h/c10.go h/c11.go h/c12.go h/c13.go h/c14.go", "serves_properties": ["C02", "C05", "C06", "C07", "C10", "C11", "C12", "C13", "C14"], "kind_free_text": "exhaustive enumeration of finite input/configuration/history-position products, each case executed on a fresh real provider and judged by an independent reference predicate"},
  ],
